@@ -301,7 +301,8 @@ Lemma ex_live :
   length (subA s) = 51%nat /\ length (subB s) = 1487%nat.
 Proof.
   intros s. subst s. rewrite run_app.
-  change (run ex_cfg (init_sys true) hs_trace) with hs_state.
+  assert (E : run ex_cfg (init_sys true) hs_trace = hs_state) by (unfold hs_state; reflexivity).
+  rewrite E. clear E.
   generalize hs_quiescent, hs_empty. generalize hs_state. intros s0 HQ0 (E1 & E2 & E3 & E4).
   destruct (writes_delivered ex_cfg ex_writes s0 _ _ HQ0 ex_writes_small) as [HQ Hx].
   destruct (writes_delivered_bytes ex_cfg ex_writes s0 _ _ HQ0 ex_writes_small SA) as [A1 A2].
@@ -312,4 +313,66 @@ Proof.
   split; [exact HQ|].
   rewrite A1, A2, B1, B2, E1, E2, E3, E4. cbn [app].
   split; [reflexivity|]. split; [reflexivity|]. split; assumption.
+Qed.
+
+(* ---------- the forms pinned in Props/C01.v ---------- *)
+From Elvis Require Import Proofs.TcbSafetyThms.
+
+Lemma liveness_partial_explicit : forall (c : config) (ws : list (side * list Z)) (s : sys) (a b : Z),
+  Quiescent c s a b ->
+  (forall w, In w ws -> 0 < zlen (snd w) <= mtu_of c (fst w) - 50) ->
+  let s' := run c s (write_trace ws) in
+  (exists a' b', Quiescent c s' a' b') /\
+  forall x, sub_of s' x = sub_of s x ++ concat (chunks x ws) /\
+            delivered s' (other x) = delivered s (other x) ++ concat (chunks x ws).
+Proof.
+  intros c ws s a b HQ Hw s'.
+  assert (Hf : Forall (small_write c) ws) by (apply Forall_forall; exact Hw).
+  split; [apply (writes_delivered c ws s a b HQ Hf)|].
+  apply (writes_delivered_bytes c ws s a b HQ Hf).
+Qed.
+
+Lemma quiescent_silent_explicit : forall (c : config) (s : sys) (a b : Z) (x : side) (t : tcb),
+  Quiescent c s a b -> end_of s x = ELive t ->
+  st t = Established /\ retx t = [] /\ out_text t = [] /\ oneshot t = [] /\ snd_una t = snd_nxt t /\
+  net_of s x = [] /\
+  exists t', tcb_segments t = Ok (t', []) /\
+  exists t'', tcb_segments (fst (advance_time t' 101)) = Ok (t'', []).
+Proof.
+  intros c s a b x t HQ El.
+  destruct (quiescent_at c s a b x HQ) as (tx & ty & Ex & _ & Q & _ & _ & _ & Nx & _).
+  rewrite El in Ex. injection Ex as <-.
+  pose proof (quiescent_silent c s a b x t HQ El) as Hs.
+  destruct Q as (Q1 & Q2 & Q3 & Q4 & Q5 & Q6 & Q7 & Q8 & Q9 & _).
+  repeat (split; [congruence|]). exact Hs.
+Qed.
+
+Lemma quiescent_delivered_explicit : forall (c : config) (bl : bool) (ls : list label) (a b : Z),
+  u32 (issA c) -> u32 (issB c) -> 100 <= mtuA c <= 65535 -> 100 <= mtuB c <= 65535 ->
+  closed_trace ls ->
+  let s := run c (init_sys bl) ls in
+  zlen (subA s) < 2 ^ 31 - 2 ^ 17 -> zlen (subB s) < 2 ^ 31 - 2 ^ 17 ->
+  Quiescent c s a b ->
+  delivered s SB = subA s /\ delivered s SA = subB s.
+Proof.
+  intros c bl ls a b H1 H2 H3 H4 Hcl s Ha Hb HQ. rewrite bound_eq in Ha, Hb.
+  assert (Hc : cfg_ok c) by (unfold cfg_ok; auto).
+  pose proof (reachable_inv c bl ls Hc (closed_trace_forallb _ Hcl) (conj Ha Hb)) as HI.
+  split; [apply (quiescent_all_delivered c s a b HI HQ SA)|apply (quiescent_all_delivered c s a b HI HQ SB)].
+Qed.
+
+Lemma liveness_example_explicit :
+  closed_trace (hs_trace ++ write_trace ex_writes) /\
+  (forall w, In w ex_writes -> 0 < zlen (snd w) <= mtu_of ex_cfg (fst w) - 50) /\
+  Quiescent ex_cfg (run ex_cfg (init_sys true) hs_trace) (wadd (issA ex_cfg) 1) (wadd (issB ex_cfg) 1) /\
+  let s := run ex_cfg (init_sys true) (hs_trace ++ write_trace ex_writes) in
+  (exists a b, Quiescent ex_cfg s a b) /\
+  delivered s SB = subA s /\ delivered s SA = subB s /\
+  length (subA s) = 51%nat /\ length (subB s) = 1487%nat.
+Proof.
+  split.
+  { intros l Hl. cbn in Hl. repeat (destruct Hl as [<- | Hl]; [exact I|]). contradiction. }
+  split.
+  { pose proof ex_writes_small as H. rewrite Forall_forall in H. exact H. }
+  split; [exact hs_quiescent|exact ex_live].
 Qed.
